@@ -33,6 +33,7 @@ type Query {
   ghost: String
   relay(n: Int!): String
   pick(i: Int!): Thing
+  join(words: [String]): String
 }
 type Mutation {
   rename(old: String!, new: String!): Keeper
@@ -429,6 +430,15 @@ func relay(q *Query, n int64) string {
 	return CanonLite(q.root.ResolveString("{ relay(n: "+strconv.FormatInt(n-1, 10)+") title }", "", nil))
 }
 
+// Join is the reflection method behind Query.join: a Go method that takes a
+// typed slice for a list argument.
+func (q *Query) Join(words []string) (string, error) {
+	if _, err := q.tr.enter("Query", "join", nil, ""); err != nil {
+		return "", err
+	}
+	return strings.Join(words, "+"), nil
+}
+
 // Pick is the reflection method behind Query.pick.
 func (q *Query) Pick(i int64) (interface{}, error) {
 	if _, err := q.tr.enter("Query", "pick", map[string]interface{}{"i": i}, ""); err != nil {
@@ -637,6 +647,18 @@ func zooField(q *Query, obj interface{}, name string, args map[string]interface{
 			return relay(o, toInt64(args["n"])), nil
 		case "pick":
 			return pick(o, toInt64(args["i"])), nil
+		case "join":
+			l, _ := args["words"].([]interface{})
+			out := ""
+			for i, w := range l {
+				if i > 0 {
+					out += "+"
+				}
+				if sw, ok := w.(string); ok {
+					out += sw
+				}
+			}
+			return out, nil
 		case "find":
 			min := 0
 			if fi, _ := args["filter"].(*FilterIn); fi != nil {
